@@ -22,7 +22,7 @@ BASE = {
     "shielding": "", "rate-modifier": [], "ode-modifier": [], "solver": "cvode", "device": "cpu", "method": "dense",
 }
 ALPHABET = {
-    "name": ["p", "my_proj", "DeutNet"],
+    "name": ["p", "my_proj", "DeutNet", "dark-cloud.v2"],
     "description": ["d", "two words", ""],
     "elements": ["", "e,H,He,C,O", "e, H, He , C, O", "H,C"],
     "pseudo-elements": ["", "CR", "CR,Photon,CRP", "CR, Photon", "CR,\\*"],  # the last: the escaped entry of the default list the prompt offers
